@@ -265,7 +265,8 @@ macro_rules! impl_arithmetic {
             fn sub(self, other: &'inner C) -> Self::Output {
                 let mut inst = self.clone();
                 other.iter().for_each(|(k, v)| {
-                    inst.inc(*k, -*v);
+                    let count = inst.get(k);
+                    inst.set(*k, count - *v);
                 });
                 return inst;
             }
@@ -295,7 +296,8 @@ macro_rules! impl_arithmetic {
             fn sub(self, other: &'inner C) -> Self::Output {
                 let mut inst = self.clone();
                 other.iter().for_each(|(k, v)| {
-                    inst.inc(*k, -*v);
+                    let count = inst.get(k);
+                    inst.set(*k, count - *v);
                 });
                 return inst;
             }
@@ -318,7 +320,8 @@ macro_rules! impl_arithmetic {
             #[inline]
             fn sub_assign(&mut self, other: &'inner C) {
                 other.iter().for_each(|(k, v)| {
-                    self.inc(*k, -*v);
+                    let count = self.get(k);
+                    self.set(*k, count - *v);
                 });
             }
         }
@@ -340,7 +343,8 @@ macro_rules! impl_arithmetic {
             #[inline]
             fn sub_assign(&mut self, other: &'inner C) {
                 other.iter().for_each(|(k, v)| {
-                    self.inc(*k, -*v);
+                    let count = self.get(k);
+                    self.set(*k, count - *v);
                 });
             }
         }
